@@ -719,7 +719,62 @@ def end_to_end_failures(n, seed, limit=3):
     return fails[:limit]
 
 
+def window_failures(n, seed, limit=3):
+    """the real _fit_windows against the window formulas of `window_lemmas` and the stated properties, for every separation factor in
+    [0, 1], widths from tiny to larger than the data range, estimates inside and outside the data"""
+    import numpy as np
+    import scipp as sc
+    from vf.realrun import real_module
+    fp = real_module('peaks._fit_peaks')
+    rng = np.random.default_rng(seed)
+    fails = []
+    for i in range(n):
+        npk = int(rng.integers(1, 7))
+        lo, hi = 0.0, 100.0
+        centers = np.sort(rng.uniform(-20 if i % 5 == 0 else 2, 120 if i % 5 == 0 else 98, npk))
+        if len(np.unique(centers)) != npk:
+            continue
+        f = float([0.0, 0.1, 1 / 3, 0.5, 0.6, 0.75, 0.9, 0.95][i % 8])     # (a factor of exactly 1 leaves a window of zero width: edges tie to rounding)
+        width = float(10 ** rng.uniform(-2, 2.3))
+        data = sc.DataArray(sc.zeros(sizes={'x': 201}), coords={'x': sc.linspace('x', lo, hi, 201, unit='angstrom')})
+        desc = {'id': f'windows{i}', 'index': i, 'seed': seed, 'kind': 'windows', 'estimates': centers.tolist(), 'width': width, 'neighbor_separation_factor': f}
+        try:
+            w = fp._fit_windows(data, sc.array(dims=['x'], values=centers, unit='angstrom'), sc.scalar(width, unit='angstrom'),
+                                fp.FitParameters(neighbor_separation_factor=f)).values
+        except Exception as e:  # noqa: BLE001
+            fails.append({**desc, 'problem': f'raised {type(e).__name__}: {e}'})
+            continue
+        prob = None
+        for k, c in enumerate(centers):
+            left, right = w[k]
+            cl = centers[k - 1] if k > 0 else None
+            cr = centers[k + 1] if k + 1 < npk else None
+            wl = c - width / 2 if cl is None else max(c - width / 2, cl + f * (c - cl))
+            wr = np.nextafter(c + width / 2, np.inf) if cr is None else min(np.nextafter(c + width / 2, np.inf), cr - f * (cr - c))
+            wl, wr = min(max(wl, lo), hi), min(max(wr, lo), hi)
+            eps = 1e-12 * max(1.0, abs(c))
+            if not (lo <= left <= right <= hi):
+                prob = f'window {k} [{left}, {right}] not ordered inside the data range'
+            elif lo <= c <= hi and not (left - eps <= c <= right + eps):      # (to rounding: a factor of 1 puts the edge on the estimate)
+                prob = f'window {k} [{left}, {right}] does not contain its estimate {c}'
+            elif left < right and ((cl is not None and left < cl + f * (c - cl) - eps) or (cr is not None and right > cr - f * (cr - c) + eps)):
+                prob = f'window {k} [{left}, {right}] is closer to a neighbouring estimate than {f} of the gap'
+            elif abs(left - wl) > eps or abs(right - wr) > eps:
+                prob = f'window {k} [{left}, {right}] differs from the documented construction [{wl}, {wr}]'
+            if prob:
+                break
+        if prob:
+            fails.append({**desc, 'problem': prob})
+            if len(fails) >= limit:
+                break
+    return fails
+
+
 def bounded_end_to_end(chk):
+    nw = 400 if chk.tier == 'quick' else 10000
+    wf = window_failures(nw, 17 + chk.seed)
+    chk.bounded_check('fit-windows', 'real _fit_windows vs the window construction and its stated properties', f'{nw} random sets of 1..6 estimates (also outside the data), '
+                      'widths 0.01..200, separation factors 0..0.95', nw, wf)
     n = 40 if chk.tier == 'quick' else 500
     fails = end_to_end_failures(n, 90 + chk.seed)
     chk.bounded_check('end-to-end-fits', 'real fit_peaks / remove_peaks on synthetic spectra: one result per peak, windows, statistics recomputed independently, requirements of '
@@ -727,5 +782,10 @@ def bounded_end_to_end(chk):
 
 
 def replay(rec):
+    f = rec.get('meta', {}).get('replay') or {}
+    if f.get('kind') == 'windows' or 'lemma/windows' in rec['obligation'] or '/bounded/fit-windows/' in rec['obligation']:
+        fails = window_failures(int(f.get('index', 399)) + 1, int(f.get('seed', 17)), limit=10 ** 6)
+        hit = [x for x in fails if 'index' not in f or x['index'] == f['index']]
+        return {'reproduced': bool(hit), 'cases': hit[:1]}
     fails = end_to_end_failures(60, 90, limit=2)
     return {'reproduced': bool(fails), 'cases': fails[:2]}
